@@ -186,7 +186,11 @@ class C32(SchedProp):
         'output or the next parentless instance of a task it reports as removed (expire_children_logged - the rule the '
         'judge applies to the real events); each child reached by the spawn_on_output step has its prerequisite atoms on '
         'the output satisfied (expire_children_satisfied, one step, all states); that no child of the output is skipped, '
-        'and that a satisfied child stays satisfied until the event ends, is checked by the judge on the traces, not proved')
+        'and that a satisfied child stays satisfied until the event ends, is checked by the judge on the traces, not proved. '
+        'OUTSIDE the model (no theorem, judged on the real trace only, kinds expq / exprl): limited internal queues - a '
+        'manual trigger that a full queue can only queue - and cylc reload changing clock-expire offsets; there the judge '
+        'decides "manually triggered" from the trigger ops (not from the is_manual_submit flag alone) and the expiry time '
+        'from the offsets of the definition in force after each reload (not from TaskProxy.expire_time)')
     technique = ('inductive invariants over op lists of a Lean scheduler model (Sched3Exp = Sched2 + clock expiry, virtual '
                  'clock, single-task trigger) + trace correspondence with the real Scheduler on datetime-cycling workflows '
                  'under a virtual clock + a monitor judge on the observed traces')
@@ -200,7 +204,10 @@ class C32(SchedProp):
         'recomputes it from the generated offsets as cycle point + offset',
     ]
     unmodelled = SchedProp.unmodelled[:2] + [
-        'xtriggers, queue limits, several flows, reload, the experimental expire-triggers mode; cylc trigger only for one '
+        'limited internal queues (queue_or_trigger against a full queue) and cylc reload are NOT in the Sched3Exp model: runs '
+        'of the kinds expq and exprl (and three hand-written histories) go through the real scheduler and the judge only, no '
+        'model comparison is made for them (the driver answers {"judge_only": true}; counted as judged, not as compared)',
+        'xtriggers, several flows, the experimental expire-triggers mode; cylc trigger only for one '
         'pooled task in the default flow (group triggers, --flow options: C28); a manual trigger followed by stop + restart '
         'is modelled through the is_manual_submit column written with the task pool (restart does not resubmit in the runner)',
         'expiry offsets that are not whole seconds / calendars other than Gregorian UTC; sequences are listed 12 h beyond '
@@ -211,12 +218,18 @@ class C32(SchedProp):
             'clock-expire tasks (offsets -PT1H .. PT3H) with triggers off their expired output (`t:expire? => u`, '
             '`t[-PT1H]:expire? => u`, `t:expire? => !u`), driven through the real Scheduler under a virtual clock by a seeded '
             'adaptive schedule of main loops, clock ticks (random sizes, exactly to / one second short of the next pending '
-            'expiry time), submit results and job messages; four kinds in rotation: exp (complete outcomes), expany '
-            '(failures, submit failures, duplicate / stale messages), expcmd (+ hold / release / hold point / stop point / '
-            'pause / stop + restart), exptrig (+ cylc trigger of single waiting tasks, preferably ones whose expiry is '
-            'pending or due); six hand-written histories (exact-time expiry, manual trigger of a due task, retry + late '
-            'messages, held tasks, expiry of an object removed earlier in the same loop, restart) and the witness of the '
-            'recorded finding run first; non-trivial = at least one task expired or a due task was protected by a manual '
+            'expiry time - also of the expiry times tasks had under a definition replaced by a reload), submit results and '
+            'job messages; six kinds in rotation: exp (complete outcomes), expany (failures, submit failures, duplicate / '
+            'stale messages), expcmd (+ hold / release / hold point / stop point / pause / stop + restart), exptrig (+ cylc '
+            'trigger of single waiting tasks, preferably ones whose expiry is pending or due), expq (limited queues with '
+            'limits 1-2, most tasks clock-expire, triggers of waiting tasks that are not queued - a full queue can only queue '
+            'them - with the clock starting before the first expiry; judged only), exprl (cylc reload, between and inside '
+            'main loops, with 3-4 definitions that differ only in the clock-expire declaration: offsets lengthened / '
+            'shortened / dropped / added; judged only); nine hand-written histories (exact-time expiry, manual trigger of a '
+            'due task, retry + late messages, held tasks, expiry of an object removed earlier in the same loop, restart, '
+            'trigger queued by a full queue while the expiry time passes, reload lengthening / shortening the offset of a '
+            'pooled task) and the witness of the recorded finding run first; '
+            'non-trivial = at least one task expired or a due task was protected by a manual '
             'trigger; classes = (kind, number of expiries, features of the expiries)')
     kinds = ('exp', 'expany', 'expcmd', 'exptrig', 'expq', 'exprl')
     n_quick = 78
@@ -226,20 +239,27 @@ class C32(SchedProp):
         self.flags = None
 
     def translate(self):
-        raws = _run_robust([dict(_WITNESS, id='c32-probe')], 1)
-        raw = raws[0]
-        if 'error' in raw:
-            raise Infra(f'C32 probe run failed: {raw["error"][-400:]}')
+        raws = _run_robust([dict(_WITNESS, id='c32-probe'), dict(_CORPUS[2], id='c32-probe2')], 2)
+        for raw in raws:
+            if 'error' in raw:
+                raise Infra(f'C32 probe run failed: {raw["error"][-400:]}')
         # did the job message `expired` move the running task 1/a into `expired`?
-        expires = any(e['p'] == 1 and e['n'] == 'a' for ob in raw['obs'] for e in ob['exp'])
-        self.flags = {'jobMsgExpires': expires}
+        expires = any(e['p'] == 1 and e['n'] == 'a' for ob in raws[0]['obs'] for e in ob['exp'])
+        # (history c32-retry-late-messages) does the late `started` message bring the expired 1/a back to running?
+        revived = any(tr[:4] == [1, 'a', 'expired', 'running'] for ob in raws[1]['obs'] for tr in ob['trans'])
+        self.flags = {'jobMsgExpires': expires, 'expiredIgnoresMsgs': not revived}
+        lb = {True: 'true', False: 'false'}
         return {'ExpFlags.lean': (
             '/- GENERATED by harness/props/c32.py translate() from the live source. Do not edit. -/\n'
             'namespace CylcModel.ExpFlags\n'
             '/-- a job message (received / polled) with the text `expired` is processed like the scheduler\'s own clock-expiry\n'
             'message: the task becomes `expired` whatever its state (true: code as found); such a message is ignored\n'
             '(false: repaired, findings/C32-proposal-1.diff) -/\n'
-            f'def jobMsgExpires : Bool := {"true" if expires else "false"}\n'
+            f'def jobMsgExpires : Bool := {lb[expires]}\n'
+            '/-- job messages (received / polled) for a task in the `expired` state are ignored (true: repaired,\n'
+            'findings/C32-fix-1.diff); they are processed like for any other state, so the `started` message of an earlier job\n'
+            'brings an expired task back to `running` (false: code as found) -/\n'
+            f'def expiredIgnoresMsgs : Bool := {lb[not revived]}\n'
             'end CylcModel.ExpFlags\n')}
 
     def corpus(self):
